@@ -1,5 +1,6 @@
 import SeliumModel.Client.Requestor
 import Driver.Util
+import SeliumModel.Gen.Client
 
 namespace Driver.ReqClient
 open Selium Selium.Client
@@ -85,6 +86,16 @@ def runReuse (t : List String) : String :=
       let b := ((Rq.run [.call]).arrive { reqId := some 0, payload := [] })
       let b2 := (b.call).arrive { reqId := some 1, payload := [] }
       [sa] ++ b2.calls.map fun cl => match cl.state with | .done _ => "ok" | .timedOut => "timeout" | .waiting => "waiting")
+  | _ => "bad-op"
+
+/-- `rqstall <n> <kib>`: no reply ever arrives: every call times out (`c04_timeout`), one after the other -/
+def runStall (t : List String) : String :=
+  match t with
+  | [n, _] =>
+    -- nothing is known about which sends complete (QUIC flow control): none, in the worst case
+    let s := (List.range (nat! n)).foldl
+      (fun (s : Rq) i => (s.call).timeoutIfArmed Selium.Gen.Client.requestTimeoutCoversSend (fun _ => false) i) (Rq.run [])
+    ",".intercalate (s.calls.map fun cl => match cl.state with | .done _ => "ok" | .timedOut => "timeout" | .waiting => "waiting")
   | _ => "bad-op"
 
 end Driver.ReqClient
